@@ -91,12 +91,16 @@ def main():
     ap.add_argument('--jobs', type=int, default=4)
     ap.add_argument('--tier', default='quick')
     ap.add_argument('--ids', default='')
+    ap.add_argument('--against', default='',
+                    help='comma list of checks to run instead of the '
+                         'labelled property (killed if any kills)')
+    ap.add_argument('--out', default='')
     ap.add_argument('--all', action='store_true',
                     help='also mutants the repo suite kills')
     a = ap.parse_args()
     muts = json.load(open(os.path.join(CAMP, 'auto-mutants.json'))) + \
         json.load(open(os.path.join(CAMP, 'hand-mutants.json')))
-    muts = [m for m in muts if m['prop'] == a.prop and
+    muts = [m for m in muts if (m['prop'] == a.prop or a.prop == 'ANY') and
             (a.all or m.get('suite') == 'SURVIVED')]
     if a.ids:
         ids = set(a.ids.split(','))
@@ -105,7 +109,16 @@ def main():
         muts = muts[:a.limit]
     print('{} mutants for {}'.format(len(muts), a.prop))
     with ThreadPoolExecutor(a.parallel) as ex:
-        res = list(ex.map(lambda m: run_one(m, a.prop, a.jobs, a.tier), muts))
+        def run_multi(m):
+            checks = a.against.split(',') if a.against else [m['prop']]
+            last = None
+            for c in checks:
+                last = run_one(m, c, a.jobs, a.tier)
+                last['check'] = c
+                if last['verdict'] == 'KILLED':
+                    break
+            return last
+        res = list(ex.map(run_multi, muts))
     out = []
     for m, r in zip(muts, res):
         rec = dict(id=m['id'], file=m['file'], func=m.get('func'),
@@ -120,7 +133,8 @@ def main():
             m['new'][:40] if 'a' in m else '', r.get('by', '')[:100]))
     os.makedirs(os.path.join(HERE, 'mutants'), exist_ok=True)
     json.dump(out, open(os.path.join(
-        HERE, 'mutants', 'results-{}.json'.format(a.prop)), 'w'), indent=1)
+        HERE, 'mutants', a.out or 'results-{}.json'.format(a.prop)), 'w'),
+        indent=1)
     cnt = {}
     for r in res:
         cnt[r['verdict']] = cnt.get(r['verdict'], 0) + 1
